@@ -35,6 +35,8 @@ type frame struct {
 	curPos    string
 	harness   int
 	visits    map[int]int
+	symIters  int         // symbolic branch decisions taken in this frame so far
+	symSeen   map[int]int // per block: symIters at its last counted visit
 }
 
 // goPanic is an interpreted-program panic travelling up the Go stack.
@@ -285,7 +287,7 @@ func (m *Machine) callFunction(fn *ssa.Function, args []Value, env []Value, call
 		}
 		m.end(StUnwind, "call depth > 400 in %s", name)
 	}
-	fr := &frame{m: m, g: m.cur, caller: caller, fn: fn, env: make(map[ssa.Value]Value, 16), visits: map[int]int{}}
+	fr := &frame{m: m, g: m.cur, caller: caller, fn: fn, env: make(map[ssa.Value]Value, 16), visits: map[int]int{}, symSeen: map[int]int{}}
 	for i, p := range fn.Params {
 		fr.env[p] = args[i]
 	}
@@ -351,7 +353,12 @@ func (fr *frame) runBlocks() (done bool) {
 	m := fr.m
 	for {
 		b := fr.block
-		fr.visits[b.Index]++
+		// the unwinding bound limits loops whose trip count depends on SYMBOLIC data (a block re-entered with solver-
+		// decided branches in between); loops with a concrete trip count are plain execution, bounded by the step limit
+		if fr.symIters != fr.symSeen[b.Index] || fr.visits[b.Index] == 0 {
+			fr.visits[b.Index]++
+			fr.symSeen[b.Index] = fr.symIters
+		}
 		if !fr.isHarness() {
 			cov := m.Res.Blocks[fr.fn]
 			if cov == nil {
@@ -494,6 +501,9 @@ func (fr *frame) visit(instr ssa.Instruction) continuation {
 		store(p, fr.get(in.Val))
 	case *ssa.If:
 		c := fr.get(in.Cond).(T)
+		if !c.IsConst() {
+			fr.symIters++ // a branch the solver had to decide: counts towards the unwinding bound of the blocks entered next
+		}
 		succ := 1
 		if m.branch(c) {
 			succ = 0
@@ -1424,7 +1434,7 @@ var pureIntrinsic = map[string]bool{
 	"vfPoint": true, "vfEnter": true, "vfExit": true,
 	"vfInt": true, "vfInt8": true, "vfInt16": true, "vfInt32": true, "vfInt64": true, "vfUint": true, "vfUint8": true,
 	"vfUint16": true, "vfUint32": true, "vfUint64": true, "vfUintptr": true, "vfBool": true, "vfFloat32": true, "vfFloat64": true,
-	"vfChoose": true, "vfRange": true, "vfAssume": true, "vfAssert": true, "vfFn": true, "vfPred": true, "vfAnd": true, "vfOr": true,
+	"vfChoose": true, "vfRange": true, "vfProbe": true, "vfProbeDuration": true, "vfCtxDone": true, "vfAssume": true, "vfAssert": true, "vfFn": true, "vfPred": true, "vfAnd": true, "vfOr": true,
 	"vfImplies": true, "vfIte": true, "vfIteBool": true, "vfReach": true, "vfTier": true, "vfNumStr": true, "vfConcrete": true,
 	"vfGoroutineID": true, "vfLog": true,
 }
